@@ -101,6 +101,7 @@ struct G<'a> {
     tag_n: usize,
     /// index of a rule whose body is a choice of strings (skipper inlining), if any
     needle_rule: Option<usize>,
+    stack_rule: Option<(String, RuleType)>,
 }
 
 pub fn gen_grammar(rng: &mut Rng, cfg: &GenCfg) -> Vec<Rule> {
@@ -132,6 +133,14 @@ pub fn gen_grammar(rng: &mut Rng, cfg: &GenCfg) -> Vec<Rule> {
         names.push(nm.clone());
         consuming.push(true);
     }
+    // a rule that is nothing but a failing-after-mutating stack operation (restorer must see through the reference)
+    let stack_rule: Option<(String, RuleType, Expr)> = if cfg.profile == Profile::Full && rng.chance(1, 4) {
+        let body = Expr::Ident(rng.pick(&["POP", "POP_ALL", "POP"]).to_string());
+        let ty = if rng.chance(1, 4) { RuleType::Silent } else { RuleType::Normal };
+        Some(("rs".to_string(), ty, body))
+    } else {
+        None
+    };
     let needle_rule = if n >= 2 && rng.chance(1, 3) { Some(n - 1) } else { None };
     let mut rules = vec![];
     let total = names.len();
@@ -157,6 +166,7 @@ pub fn gen_grammar(rng: &mut Rng, cfg: &GenCfg) -> Vec<Rule> {
             cur_ty: ty,
             tag_n: 0,
             needle_rule,
+            stack_rule: stack_rule.as_ref().map(|r| (r.0.clone(), r.1)),
         };
         let expr = if Some(i) == needle_rule && !is_skip {
             // a rule the skipper can inline: a choice of plain strings
@@ -178,6 +188,9 @@ pub fn gen_grammar(rng: &mut Rng, cfg: &GenCfg) -> Vec<Rule> {
             }
         };
         rules.push(Rule { name: names[i].clone(), ty, expr });
+    }
+    if let Some((name, ty, expr)) = stack_rule {
+        rules.push(Rule { name, ty, expr });
     }
     rules
 }
@@ -590,6 +603,19 @@ impl<'a> G<'a> {
                     });
                 }
                 let mutating = |g: &mut G| -> Expr {
+                    if let Some((name, ty)) = g.stack_rule.clone() {
+                        if g.rng.chance(1, 2) {
+                            let r = Expr::Ident(name);
+                            #[cfg(feature = "grammar-extras")]
+                            {
+                                if g.cfg.extras && ty != RuleType::Silent && g.rng.chance(1, 2) {
+                                    return Expr::NodeTag(Box::new(r), "ts".into());
+                                }
+                            }
+                            let _ = ty;
+                            return r;
+                        }
+                    }
                     let m = match g.rng.below(6) {
                         0 => Expr::Ident("POP".into()),
                         1 => Expr::Ident("DROP".into()),
